@@ -1,20 +1,25 @@
 // Kuznyechik, default x86-64 configuration (sse2 back end): conformance of Kuznyechik / KuznyechikEnc / KuznyechikDec to
-// GOST R 34.12-2015 (C07), round trips incl. KuznyechikEnc -> KuznyechikDec through the real From conversion (C01),
-// no panic / overflow / misaligned load (C20).
+// GOST R 34.12-2015 (C07), agreement of every conversion route and clone (C12), back-end independence via the common
+// oracle (C03), round trips incl. KuznyechikEnc -> KuznyechikDec through the real From conversions (C01), no panic /
+// overflow / misaligned or out-of-bounds load (C20).
 //
 // Leaves of this back end: `transform(b, &ENC_TABLE)` (= L S), `transform(b, &DEC_TABLE)` (= L^-1 S^-1), `sub_bytes`.
-// L: the leaves vs the oracle (GF(2^8) arithmetic computed, L = R^16, pi as data).
-// W: the real key expansion, `inv_enc_keys`, the real round loops and the From conversions, with the byte substitution
-//    layer S an uninterpreted bijection pair on 128-bit words shared with the oracle and the linear map L the oracle's
-//    (concrete) one: transform(., ENC) := L(S(.)), transform(., DEC) := L^-1(S^-1(.)), sub_bytes := S / S^-1.
-//    Everything above the `stubs:` lines uses the public API only; the stubs and leaf lemmas are sse2-specific.
+// L: the leaves vs the oracle.  transform == L S as ONE query over 128 bits does not fit (sixteen 128-bit loads at
+//    symbolic offsets from a constant 64 KiB array: CBMC needed > 24 GB; with symbolic table contents > 14 GB).  It is
+//    obtained from solver-checked lemmas:
+//      (rows)   kuz_leaf_rows:           _mm_load_si128(&T[4096 p + 16 v]) == L(pi(v) e_p)   all rows of the real tables, read
+//                                        with the load intrinsic that transform uses (resp. L^-1(pi^-1(v) e_p) for DEC_TABLE)
+//      (flow)   kuz_leaf_transform_flow: transform(b, &T) == XOR_p load(&T[4096 p + 16 b_p]) all b, both tables, the load an
+//                                        uninterpreted function of the address
+//      (linear) kz_common::kuz_lin_l / kuz_lin_linv: L and L^-1 are GF(2)-linear, hence L(s) = XOR_p L(s_p e_p)
+//    so transform(b, &ENC_TABLE) = XOR_p L(pi(b_p) e_p) = L(S(b)), and likewise for DEC_TABLE.
+// W: see kz_common.rs; here: the stubs and one harness per route.
+use super::kz_common::{self as k, Route};
 use super::prelude::*;
 use crate::consts::{P, P_INV};
 use crate::fused_tables::{Table, DEC_TABLE, ENC_TABLE};
-use crate::sse2::backends::{expand_enc_keys, inv_enc_keys, sub_bytes, transform, RoundKeys};
+use crate::sse2::backends::{sub_bytes, transform};
 use crate::utils::KEYGEN;
-use crate::{Kuznyechik, KuznyechikDec, KuznyechikEnc};
-use cipher::{BlockCipherDecrypt, BlockCipherEncrypt, KeyInit};
 use core::arch::x86_64::*;
 use refmodels::kuznyechik as r;
 
@@ -24,58 +29,32 @@ fn to_m(b: &[u8; 16]) -> __m128i {
 fn from_m(v: __m128i) -> [u8; 16] {
     unsafe { core::mem::transmute::<__m128i, [u8; 16]>(v) }
 }
-fn pack(b: &[u8; 16]) -> u128 {
-    u128::from_le_bytes(*b)
-}
-fn unpack(v: u128) -> [u8; 16] {
-    v.to_le_bytes()
-}
-
-// S layer as an uninterpreted bijection pair on 128-bit words; natively the oracle's S / S^-1.
-fn conc_s(x: u128) -> u128 {
-    pack(&r::s(&unpack(x)))
-}
-fn conc_s_inv(x: u128) -> u128 {
-    pack(&r::s_inv(&unpack(x)))
-}
-uf_bij!(uf_s, u128, [B0 B1], conc_s, conc_s_inv);
-
-fn us(a: &[u8; 16]) -> [u8; 16] {
-    unpack(uf_s::fwd(pack(a)))
-}
-fn us_inv(a: &[u8; 16]) -> [u8; 16] {
-    unpack(uf_s::inv(pack(a)))
-}
-/// L S with S uninterpreted
-fn uls(a: &[u8; 16]) -> [u8; 16] {
-    r::l(&us(a))
-}
 
 pub unsafe fn stub_transform(block: __m128i, table: &Table) -> __m128i {
     let x = from_m(block);
     if core::ptr::eq(table, &ENC_TABLE) {
-        to_m(&r::l(&us(&x)))
+        to_m(&k::ul(&k::us(&x)))
     } else {
         #[cfg(kani)]
         kani::assert(core::ptr::eq(table, &DEC_TABLE), "VERIF_STUB_TABLE");
-        to_m(&r::l_inv(&us_inv(&x)))
+        to_m(&k::uli(&k::usi(&x)))
     }
 }
 pub unsafe fn stub_sub_bytes(block: __m128i, sbox: &[u8; 256]) -> __m128i {
     let x = from_m(block);
     // P and P_INV are consts (no stable address): told apart by their first entry (pi(0) = 0xFC, pi^-1(0) = 0xA5)
     if sbox[0] == 0xFC {
-        to_m(&us(&x))
+        to_m(&k::us(&x))
     } else {
         #[cfg(kani)]
         kani::assert(sbox[0] == 0xA5, "VERIF_STUB_TABLE");
-        to_m(&us_inv(&x))
+        to_m(&k::usi(&x))
     }
 }
 
 // ---------------------------------------------------------------------------------------------------------- leaves
 
-//@ harness name=kuz_leaf_consts prop=C07,C20 tier=quick bits=16 est=60 desc="L: P[x] == pi(x), P_INV[x] == pi^-1(x), pi^-1(pi(x)) == x == pi(pi^-1(x)) for all bytes x; KEYGEN[i] == C_{i+1} = L(Vec128(i+1)) for symbolic i in 0..32 (field arithmetic of the oracle computed)"
+//@ harness name=kuz_leaf_consts prop=C07,C20 tier=quick bits=16 est=60 desc="L: P[x] == pi(x), P_INV[x] == pi^-1(x), pi^-1(pi(x)) == x == pi(pi^-1(x)) for all octets x; KEYGEN[i] == C_{i+1} = L(Vec128(i+1)) for symbolic i in 0..32 (field arithmetic of the oracle computed)"
 verif_harness! {
     name: kuz_leaf_consts,
     bytes: 2,
@@ -89,7 +68,7 @@ verif_harness! {
     }
 }
 
-//@ harness name=kuz_leaf_sub_bytes prop=C07,C20 tier=quick bits=128 est=60 desc="L: sub_bytes(b, &P) == oracle S(b) and sub_bytes(b, &P_INV) == oracle S^-1(b) for all 2^128 b"
+//@ harness name=kuz_leaf_sub_bytes prop=C07,C20 tier=quick bits=128 est=30 desc="L: sub_bytes(b, &P) == oracle S(b) and sub_bytes(b, &P_INV) == oracle S^-1(b) for all 2^128 b"
 verif_harness! {
     name: kuz_leaf_sub_bytes,
     bytes: 16,
@@ -101,23 +80,12 @@ verif_harness! {
     }
 }
 
-/// Address of row (position p, byte v) of a fused table: the 16 octets at offset 4096 p + 16 v.
+/// Address of row (position p, octet v) of a fused table: the 16 octets at offset 4096 p + 16 v.
 fn row_ptr(t: &Table, p: usize, v: usize) -> *const __m128i {
     unsafe { t.0.as_ptr().add(4096 * p + 16 * v) as *const __m128i }
 }
 
-// transform(b, &ENC_TABLE) == L(S(b)) as ONE query over 128 bits does not fit (sixteen 128-bit loads at symbolic
-// offsets from a constant 64 KiB array: CBMC needed > 24 GB; with symbolic table contents > 14 GB).  It is obtained
-// from three solver-checked lemmas:
-//   (rows)   kuz_leaf_rows:           _mm_load_si128(&T[4096 p + 16 v]) == L(pi(v) e_p)  for all rows of the real tables,
-//                                     read with the same load intrinsic that transform uses
-//   (flow)   kuz_leaf_transform_flow: transform(b, &T) == XOR_p load(&T[4096 p + 16 b_p]) for all b, both tables, with the
-//                                     load an uninterpreted function of the address (the sixteen loads happen at
-//                                     exactly the row addresses selected by the sixteen octets, and are XORed)
-//   (linear) kuz_oracle_linear:       L(s) == XOR_p L(s_p e_p)                           for all s (same for L^-1)
-// hence transform(b, &ENC_TABLE) = XOR_p L(pi(b_p) e_p) = L(S(b)), and likewise for DEC_TABLE with L^-1, pi^-1.
-
-//@ harness name=kuz_leaf_rows prop=C07,C20 tier=quick bits=12 est=200 desc="L: every row of the fused tables, read with _mm_load_si128 at &T[4096 p + 16 v]: ENC_TABLE row == L(pi(v) at octet p, 0 elsewhere) and DEC_TABLE row == L^-1(pi^-1(v) at octet p, 0 elsewhere), position p and byte v symbolic (all 2 x 4096 rows)"
+//@ harness name=kuz_leaf_rows prop=C07,C20 tier=quick bits=12 est=250 desc="L: every row of the fused tables, read with _mm_load_si128 at &T[4096 p + 16 v]: ENC_TABLE row == L(pi(v) at octet p, 0 elsewhere) and DEC_TABLE row == L^-1(pi^-1(v) at octet p, 0 elsewhere), position p and octet v symbolic (all 2 x 4096 rows)"
 verif_harness! {
     name: kuz_leaf_rows,
     bytes: 2,
@@ -143,7 +111,7 @@ pub unsafe fn stub_load(p: *const __m128i) -> __m128i {
     core::mem::transmute::<u128, __m128i>(uf_load::call(p as usize))
 }
 
-//@ harness name=kuz_leaf_transform_flow prop=C07,C20 tier=quick bits=129 stub=1 est=100 desc="L: data flow of transform for all 2^128 b and both tables: transform(b, &T) == XOR over octet positions p of load(&T[4096 p + 16 b_p]), the 128-bit load being an uninterpreted function of its address; includes the alignment debug_assert and the in-bounds pointer arithmetic of all sixteen loads"
+//@ harness name=kuz_leaf_transform_flow prop=C07,C20 tier=quick bits=129 stub=1 est=45 desc="L: data flow of transform for all 2^128 b and both tables: transform(b, &T) == XOR over octet positions p of load(&T[4096 p + 16 b_p]), the 128-bit load being an uninterpreted function of its address; includes the alignment debug_assert and the in-bounds pointer arithmetic of all sixteen loads"
 verif_harness! {
     name: kuz_leaf_transform_flow,
     bytes: 17,
@@ -163,115 +131,187 @@ verif_harness! {
     }
 }
 
-fn xor_into(acc: &mut [u8; 16], v: &[u8; 16]) {
-    let mut k = 0;
-    while k < 16 {
-        acc[k] ^= v[k];
-        k += 1;
-    }
-}
+// ---------------------------------------------------------------------------------------------------------- wiring: encryption
 
-//@ harness name=kuz_oracle_linear prop=C07 tier=quick bits=128 est=300 desc="L (oracle only): L(s) == XOR_p L(s_p at octet p, 0 elsewhere) and the same for L^-1, for all 2^128 s: the octet-wise decomposition that fused tables rely on"
+//@ harness name=kuz_sse2_keys prop=C07,C20 tier=quick bits=256 stub=1 est=120 desc="W: round keys of KuznyechikEnc::new(key) (expand_enc_keys) == oracle K1..K10 (Feistel key schedule with C_1..C_32), all 2^256 keys"
 verif_harness! {
-    name: kuz_oracle_linear,
-    bytes: 16,
-    unwind: 20,
-    prop: |inp| {
-        let s: [u8; 16] = take(inp, 0);
-        let mut a = [0u8; 16];
-        let mut d = [0u8; 16];
-        let mut p = 0;
-        while p < 16 {
-            let mut e = [0u8; 16];
-            e[p] = s[p];
-            xor_into(&mut a, &r::l(&e));
-            xor_into(&mut d, &r::l_inv(&e));
-            p += 1;
-        }
-        vcheck!(a == r::l(&s));
-        Some(d == r::l_inv(&s))
-    }
-}
-
-// ---------------------------------------------------------------------------------------------------------- wiring
-
-//@ harness name=kuz_wire_enc prop=C07,C20 tier=quick bits=384 stub=1 est=300 desc="W: KuznyechikEnc::new(key).encrypt_block(b) == oracle key schedule (32 Feistel steps with C_1..C_32) + 9 LSX rounds + X, all 2^256 keys, all 2^128 blocks; S uninterpreted bijection, L the oracle's"
-verif_harness! {
-    name: kuz_wire_enc,
-    bytes: 48,
-    unwind: 70,
-    stubs: [(crate::sse2::backends::transform, stub_transform), (crate::sse2::backends::sub_bytes, stub_sub_bytes)],
-    prop: |inp| {
-        let key: [u8; 32] = take(inp, 0);
-        let blk: [u8; 16] = take(inp, 32);
-        let c = KuznyechikEnc::new(&key.into());
-        let mut b = blk.into();
-        c.encrypt_block(&mut b);
-        let rk = r::key_schedule_with(&key, uls);
-        Some(b.0 == r::encrypt_with(&rk, &blk, uls))
-    }
-}
-
-/// An encryption-only instance over ARBITRARY round keys K1..K10 (superset of the states KeyInit::new produces).
-fn enc_of_rk(inp: &[u8], off: usize) -> (KuznyechikEnc, [[u8; 16]; 10]) {
-    let mut rk = [[0u8; 16]; 10];
-    let mut m: RoundKeys = [to_m(&[0u8; 16]); 10];
-    let mut i = 0;
-    while i < 10 {
-        rk[i] = take(inp, off + 16 * i);
-        m[i] = to_m(&rk[i]);
-        i += 1;
-    }
-    (unsafe { core::mem::transmute::<RoundKeys, KuznyechikEnc>(m) }, rk)
-}
-
-//@ harness name=kuz_wire_keys prop=C07,C20 tier=quick bits=256 stub=1 est=200 desc="W: round keys of KuznyechikEnc::new(key) (expand_enc_keys) == oracle K1..K10 (Feistel key schedule with C_1..C_32), all 2^256 keys"
-verif_harness! {
-    name: kuz_wire_keys,
+    name: kuz_sse2_keys,
     bytes: 32,
     unwind: 70,
     stubs: [(crate::sse2::backends::transform, stub_transform), (crate::sse2::backends::sub_bytes, stub_sub_bytes)],
-    prop: |inp| {
-        let key: [u8; 32] = take(inp, 0);
-        let c = KuznyechikEnc::new(&key.into());
-        let m = unsafe { core::mem::transmute::<KuznyechikEnc, RoundKeys>(c) };
-        let rk = r::key_schedule_with(&key, uls);
-        let mut i = 0;
-        while i < 10 {
-            vcheck!(from_m(m[i]) == rk[i]);
-            i += 1;
-        }
-        Some(true)
-    }
+    prop: |inp| { k::w_keys(inp) }
 }
-
-//@ harness name=kuz_wire_enc_rk prop=C07,C20 tier=quick bits=1408 stub=1 est=100 desc="W: KuznyechikEnc over arbitrary round keys: encrypt_block(b) == oracle E (9 LSX rounds + X), all round keys, all blocks"
+//@ harness name=kuz_sse2_enc_key prop=C07,C03,C12,C20 tier=quick bits=384 stub=1 est=200 desc="W: KuznyechikEnc::new(key).encrypt_block(b) == oracle E(key schedule(key), b), all keys, all blocks"
 verif_harness! {
-    name: kuz_wire_enc_rk,
+    name: kuz_sse2_enc_key,
+    bytes: 48,
+    unwind: 70,
+    stubs: [(crate::sse2::backends::transform, stub_transform), (crate::sse2::backends::sub_bytes, stub_sub_bytes)],
+    prop: |inp| { k::w_enc_key(inp, 0) }
+}
+//@ harness name=kuz_sse2_enc_key_both prop=C07,C03,C12,C20 tier=quick bits=384 stub=1 est=200 desc="W: Kuznyechik::new(key).encrypt_block(b) == oracle E(key schedule(key), b), all keys, all blocks"
+verif_harness! {
+    name: kuz_sse2_enc_key_both,
+    bytes: 48,
+    unwind: 70,
+    stubs: [(crate::sse2::backends::transform, stub_transform), (crate::sse2::backends::sub_bytes, stub_sub_bytes)],
+    prop: |inp| { k::w_enc_key(inp, 1) }
+}
+//@ harness name=kuz_sse2_enc_rk prop=C07,C03,C12,C20 tier=quick bits=1408 stub=1 est=60 desc="W: KuznyechikEnc over arbitrary round keys: encrypt_block == oracle E (9 LSX rounds + X), all round keys, all blocks"
+verif_harness! {
+    name: kuz_sse2_enc_rk,
     bytes: 160 + 16,
     unwind: 70,
     stubs: [(crate::sse2::backends::transform, stub_transform), (crate::sse2::backends::sub_bytes, stub_sub_bytes)],
-    prop: |inp| {
-        let (c, rk) = enc_of_rk(inp, 0);
-        let blk: [u8; 16] = take(inp, 160);
-        let mut b = blk.into();
-        c.encrypt_block(&mut b);
-        Some(b.0 == r::encrypt_with(&rk, &blk, uls))
-    }
+    prop: |inp| { k::w_enc_rk(inp, Route::Enc) }
 }
-
-//@ harness name=kuz_wire_dec_rk prop=C07,C20 tier=quick bits=1408 stub=1 est=600 desc="W: KuznyechikDec::from(enc) over arbitrary encryption round keys (real inv_enc_keys): decrypt_block(b) == oracle D = X[K1] S^-1 L^-1 X[K2] ... S^-1 L^-1 X[K10], all round keys, all blocks (the pre-transformed keys L^-1(K_i) need the linearity of L^-1, decided by the solver on the oracle's L^-1)"
+//@ harness name=kuz_sse2_enc_rk_clone prop=C12,C20 tier=quick bits=1408 stub=1 est=60 desc="W: clone of a KuznyechikEnc: encrypt_block == oracle E, all round keys, all blocks"
 verif_harness! {
-    name: kuz_wire_dec_rk,
+    name: kuz_sse2_enc_rk_clone,
     bytes: 160 + 16,
     unwind: 70,
     stubs: [(crate::sse2::backends::transform, stub_transform), (crate::sse2::backends::sub_bytes, stub_sub_bytes)],
-    prop: |inp| {
-        let (c, rk) = enc_of_rk(inp, 0);
-        let blk: [u8; 16] = take(inp, 160);
-        let d = KuznyechikDec::from(c);
-        let mut b = blk.into();
-        d.decrypt_block(&mut b);
-        Some(b.0 == r::decrypt_with(&rk, &blk, us_inv, r::l_inv))
-    }
+    prop: |inp| { k::w_enc_rk(inp, Route::EncClone) }
+}
+//@ harness name=kuz_sse2_enc_rk_val prop=C12,C03,C20 tier=quick bits=1408 stub=1 est=60 desc="W: Kuznyechik::from(enc) (by value): encrypt_block == oracle E, all round keys, all blocks"
+verif_harness! {
+    name: kuz_sse2_enc_rk_val,
+    bytes: 160 + 16,
+    unwind: 70,
+    stubs: [(crate::sse2::backends::transform, stub_transform), (crate::sse2::backends::sub_bytes, stub_sub_bytes)],
+    prop: |inp| { k::w_enc_rk(inp, Route::Val) }
+}
+//@ harness name=kuz_sse2_enc_rk_ref prop=C12,C03,C20 tier=quick bits=1408 stub=1 est=60 desc="W: Kuznyechik::from(&enc) (by reference): encrypt_block == oracle E, all round keys, all blocks"
+verif_harness! {
+    name: kuz_sse2_enc_rk_ref,
+    bytes: 160 + 16,
+    unwind: 70,
+    stubs: [(crate::sse2::backends::transform, stub_transform), (crate::sse2::backends::sub_bytes, stub_sub_bytes)],
+    prop: |inp| { k::w_enc_rk(inp, Route::Ref) }
+}
+//@ harness name=kuz_sse2_enc_rk_valclone prop=C12,C20 tier=quick bits=1408 stub=1 est=60 desc="W: Kuznyechik::from(enc).clone(): encrypt_block == oracle E, all round keys, all blocks"
+verif_harness! {
+    name: kuz_sse2_enc_rk_valclone,
+    bytes: 160 + 16,
+    unwind: 70,
+    stubs: [(crate::sse2::backends::transform, stub_transform), (crate::sse2::backends::sub_bytes, stub_sub_bytes)],
+    prop: |inp| { k::w_enc_rk(inp, Route::ValClone) }
+}
+//@ harness name=kuz_sse2_enc_rk_refclone prop=C12,C20 tier=quick bits=1408 stub=1 est=60 desc="W: Kuznyechik::from(&enc).clone(): encrypt_block == oracle E, all round keys, all blocks"
+verif_harness! {
+    name: kuz_sse2_enc_rk_refclone,
+    bytes: 160 + 16,
+    unwind: 70,
+    stubs: [(crate::sse2::backends::transform, stub_transform), (crate::sse2::backends::sub_bytes, stub_sub_bytes)],
+    prop: |inp| { k::w_enc_rk(inp, Route::RefClone) }
+}
+
+// ---------------------------------------------------------------------------------------------------------- wiring: decryption
+
+//@ harness name=kuz_sse2_dec_rk_val prop=C07,C03,C12,C20 tier=quick bits=1408 stub=1 est=200 desc="W: KuznyechikDec::from(enc) (by value, real inv_enc_keys) over arbitrary encryption round keys: decrypt_block == oracle D = X[K1] S^-1 L^-1 X[K2] ... S^-1 L^-1 X[K10], all round keys, all blocks (linearity instances of L^-1 assumed, lemma kuz_lin_linv)"
+verif_harness! {
+    name: kuz_sse2_dec_rk_val,
+    bytes: 160 + 16,
+    unwind: 70,
+    stubs: [(crate::sse2::backends::transform, stub_transform), (crate::sse2::backends::sub_bytes, stub_sub_bytes)],
+    prop: |inp| { k::w_dec_rk(inp, Route::Val, false, true) }
+}
+//@ harness name=kuz_sse2_dec_rk_ref prop=C07,C03,C12,C20 tier=quick bits=1408 stub=1 est=200 desc="W: KuznyechikDec::from(&enc) (by reference): decrypt_block == oracle D, all round keys, all blocks"
+verif_harness! {
+    name: kuz_sse2_dec_rk_ref,
+    bytes: 160 + 16,
+    unwind: 70,
+    stubs: [(crate::sse2::backends::transform, stub_transform), (crate::sse2::backends::sub_bytes, stub_sub_bytes)],
+    prop: |inp| { k::w_dec_rk(inp, Route::Ref, false, true) }
+}
+//@ harness name=kuz_sse2_dec_rk_valclone prop=C12,C20 tier=quick bits=1408 stub=1 est=200 desc="W: KuznyechikDec::from(enc).clone(): decrypt_block == oracle D, all round keys, all blocks"
+verif_harness! {
+    name: kuz_sse2_dec_rk_valclone,
+    bytes: 160 + 16,
+    unwind: 70,
+    stubs: [(crate::sse2::backends::transform, stub_transform), (crate::sse2::backends::sub_bytes, stub_sub_bytes)],
+    prop: |inp| { k::w_dec_rk(inp, Route::ValClone, false, true) }
+}
+//@ harness name=kuz_sse2_dec_rk_refclone prop=C12,C20 tier=quick bits=1408 stub=1 est=200 desc="W: KuznyechikDec::from(&enc).clone(): decrypt_block == oracle D, all round keys, all blocks"
+verif_harness! {
+    name: kuz_sse2_dec_rk_refclone,
+    bytes: 160 + 16,
+    unwind: 70,
+    stubs: [(crate::sse2::backends::transform, stub_transform), (crate::sse2::backends::sub_bytes, stub_sub_bytes)],
+    prop: |inp| { k::w_dec_rk(inp, Route::RefClone, false, true) }
+}
+//@ harness name=kuz_sse2_both_dec_rk_val prop=C07,C03,C12,C20 tier=quick bits=1408 stub=1 est=200 desc="W: Kuznyechik::from(enc) (by value): decrypt_block == oracle D, all round keys, all blocks"
+verif_harness! {
+    name: kuz_sse2_both_dec_rk_val,
+    bytes: 160 + 16,
+    unwind: 70,
+    stubs: [(crate::sse2::backends::transform, stub_transform), (crate::sse2::backends::sub_bytes, stub_sub_bytes)],
+    prop: |inp| { k::w_dec_rk(inp, Route::Val, true, true) }
+}
+//@ harness name=kuz_sse2_both_dec_rk_ref prop=C07,C03,C12,C20 tier=quick bits=1408 stub=1 est=200 desc="W: Kuznyechik::from(&enc) (by reference): decrypt_block == oracle D, all round keys, all blocks"
+verif_harness! {
+    name: kuz_sse2_both_dec_rk_ref,
+    bytes: 160 + 16,
+    unwind: 70,
+    stubs: [(crate::sse2::backends::transform, stub_transform), (crate::sse2::backends::sub_bytes, stub_sub_bytes)],
+    prop: |inp| { k::w_dec_rk(inp, Route::Ref, true, true) }
+}
+//@ harness name=kuz_sse2_both_dec_rk_valclone prop=C12,C20 tier=quick bits=1408 stub=1 est=200 desc="W: Kuznyechik::from(enc).clone(): decrypt_block == oracle D, all round keys, all blocks"
+verif_harness! {
+    name: kuz_sse2_both_dec_rk_valclone,
+    bytes: 160 + 16,
+    unwind: 70,
+    stubs: [(crate::sse2::backends::transform, stub_transform), (crate::sse2::backends::sub_bytes, stub_sub_bytes)],
+    prop: |inp| { k::w_dec_rk(inp, Route::ValClone, true, true) }
+}
+//@ harness name=kuz_sse2_both_dec_rk_refclone prop=C12,C20 tier=quick bits=1408 stub=1 est=200 desc="W: Kuznyechik::from(&enc).clone(): decrypt_block == oracle D, all round keys, all blocks"
+verif_harness! {
+    name: kuz_sse2_both_dec_rk_refclone,
+    bytes: 160 + 16,
+    unwind: 70,
+    stubs: [(crate::sse2::backends::transform, stub_transform), (crate::sse2::backends::sub_bytes, stub_sub_bytes)],
+    prop: |inp| { k::w_dec_rk(inp, Route::RefClone, true, true) }
+}
+//@ harness name=kuz_sse2_dec_key prop=C07,C03,C12,C20 tier=quick bits=384 stub=1 est=300 desc="W: KuznyechikDec::new(key).decrypt_block(b) == oracle D(key schedule(key), b), all keys, all blocks"
+verif_harness! {
+    name: kuz_sse2_dec_key,
+    bytes: 48,
+    unwind: 70,
+    stubs: [(crate::sse2::backends::transform, stub_transform), (crate::sse2::backends::sub_bytes, stub_sub_bytes)],
+    prop: |inp| { k::w_dec_key(inp, 0, true) }
+}
+//@ harness name=kuz_sse2_dec_key_both prop=C07,C03,C12,C20 tier=quick bits=384 stub=1 est=300 desc="W: Kuznyechik::new(key).decrypt_block(b) == oracle D(key schedule(key), b), all keys, all blocks"
+verif_harness! {
+    name: kuz_sse2_dec_key_both,
+    bytes: 48,
+    unwind: 70,
+    stubs: [(crate::sse2::backends::transform, stub_transform), (crate::sse2::backends::sub_bytes, stub_sub_bytes)],
+    prop: |inp| { k::w_dec_key(inp, 1, true) }
+}
+
+// ---------------------------------------------------------------------------------------------------------- round trips
+
+//@ harness name=kuz_sse2_rt_enc_dec prop=C01,C20 tier=quick bits=1408 stub=1 est=200 desc="W: KuznyechikEnc encrypts, KuznyechikDec::from(&enc) decrypts: result == b, arbitrary round keys, all blocks (S, L uninterpreted inverse pairs)"
+verif_harness! {
+    name: kuz_sse2_rt_enc_dec,
+    bytes: 160 + 16,
+    unwind: 70,
+    stubs: [(crate::sse2::backends::transform, stub_transform), (crate::sse2::backends::sub_bytes, stub_sub_bytes)],
+    prop: |inp| { k::w_roundtrip_rk(inp, 0, true) }
+}
+//@ harness name=kuz_sse2_rt_ed prop=C01,C20 tier=quick bits=1408 stub=1 est=200 desc="W: Kuznyechik::from(&enc): dec(enc(b)) == b, arbitrary round keys, all blocks"
+verif_harness! {
+    name: kuz_sse2_rt_ed,
+    bytes: 160 + 16,
+    unwind: 70,
+    stubs: [(crate::sse2::backends::transform, stub_transform), (crate::sse2::backends::sub_bytes, stub_sub_bytes)],
+    prop: |inp| { k::w_roundtrip_rk(inp, 1, true) }
+}
+//@ harness name=kuz_sse2_rt_de prop=C01,C20 tier=quick bits=1408 stub=1 est=200 desc="W: Kuznyechik::from(&enc): enc(dec(b)) == b, arbitrary round keys, all blocks"
+verif_harness! {
+    name: kuz_sse2_rt_de,
+    bytes: 160 + 16,
+    unwind: 70,
+    stubs: [(crate::sse2::backends::transform, stub_transform), (crate::sse2::backends::sub_bytes, stub_sub_bytes)],
+    prop: |inp| { k::w_roundtrip_rk(inp, 2, true) }
 }
